@@ -36,9 +36,10 @@ def split_matrix_svd(A, q0, q1, tol):
     # find common quantum numbers
     qis = np.intersect1d(q0, q1)
 
-    if len(qis) == 0:
+    if len(qis) == 0 or not np.any(A):
         assert np.linalg.norm(A) == 0
-        # special case: no common quantum numbers;
+        # special case: no common quantum numbers, or zero matrix (all singular values
+        # would be discarded, leaving an intermediate dimension 0);
         # use dummy intermediate dimension 1
         u = np.zeros((A.shape[0], 1), dtype=A.dtype)
         v = np.zeros((1, A.shape[1]), dtype=A.dtype)
